@@ -1,5 +1,6 @@
 import PyGam.Model.Dists
 import PyGam.Model.DistState
+import PyGam.Model.GamScale
 import PyGam.Drv.Common
 namespace PyGam.Drv.C06
 open PyGam PyGam.Drv
@@ -54,6 +55,49 @@ def runHistory (fam : Family) (levels : Float) : DistState Float → List (PhiDa
       let d' := estimateStep d fam levels x
       (showOptFloat (phiAt d fam levels x) ++ " " ++ showOptFloat d'.scale) :: runHistory fam levels d' xs
 
+def parseCls? : String → Option Heap.Cls
+  | "LinearGAM" => some .linear
+  | "GammaGAM" => some .gamma
+  | "InvGaussGAM" => some .invGauss
+  | "ExpectileGAM" => some .expectile
+  | "LogisticGAM" => some .logistic
+  | "PoissonGAM" => some .poisson
+  | "GAM" => some .generic
+  | _ => none
+
+/-- the events of `gamscale`: `set <scale|none>`, `dist <scale|none>`, `fit n edof w₁…wₙ y₁…yₙ mu₁…muₙ`
+(`fuel` bounds the recursion: one token is consumed per step at least) -/
+def parseScaleEvents? : Nat → List String → Option (List (ScaleEvent Float))
+  | _, [] => some []
+  | 0, _ :: _ => none
+  | fuel+1, "set" :: v :: rest => do
+      let v ← parseOptFloat? v
+      let tl ← parseScaleEvents? fuel rest
+      some (.setScale v :: tl)
+  | fuel+1, "dist" :: v :: rest => do
+      let v ← parseOptFloat? v
+      let tl ← parseScaleEvents? fuel rest
+      some (.setDist v :: tl)
+  | fuel+1, "fit" :: n :: edof :: rest => do
+      let n ← n.toNat?; let edof ← parseFloat? edof
+      if rest.length < 3 * n then none else
+      let xs ← parseFloats? (rest.take (3 * n))
+      let blk : PhiData Float :=
+        ⟨n, edof, listToVec (xs.take n), listToVec ((xs.drop n).take n), listToVec (xs.drop (2 * n))⟩
+      let tl ← parseScaleEvents? fuel (rest.drop (3 * n))
+      some (.fit blk :: tl)
+  | _+1, _ => none
+
+/-- run `scaleStep` over the events; one entry per fit: the `scale` of the model's distribution after it
+(`statistics_['scale']`) -/
+def runScaleEvents (fam : Family) (levels : Float) : GamScale Float → List (ScaleEvent Float) → List String
+  | _, [] => []
+  | g, e :: es =>
+      let g' := scaleStep g fam levels e
+      match e with
+      | .fit _ => showOptFloat g'.dist.scale :: runScaleEvents fam levels g' es
+      | _ => runScaleEvents fam levels g' es
+
 /-- operations of the C06 model driver (`C06 <op> <args…>`); `none` ↦ `bad-op`.
 All numbers are IEEE doubles as bit patterns.
 * `V fam levels w mu`                         → `varFnW`
@@ -63,6 +107,8 @@ All numbers are IEEE doubles as bit patterns.
 * `phi fam levels known n edof w… y… mu…`     → `phi`
 * `phih fam levels init k (n edof w… y… mu…)×k` → per fit of the same object (`mkDist fam init`, `estimateStep`):
                                                 `phiAt` before the store and the stored `scale` after it
+* `gamscale cls fam levels init events…`      → per fit of the model (`GamScale.new cls fam init`, `scaleStep`): its scale;
+                                                events `set s` | `dist s` | `fit n edof w… y… mu…`
 * `sampler fam scale levels mu`               → the sampler call and its documented `(mean, variance)` / `TypeError` -/
 def handle : List String → Option String
   | ["V", fam, levels, w, mu] => do
@@ -97,6 +143,11 @@ def handle : List String → Option String
       let k ← k.toNat?
       let blocks ← parsePhiBlocks? k rest
       some (joinWith " | " (runHistory fam levels (mkDist fam init) blocks))
+  | "gamscale" :: cls :: fam :: levels :: init :: rest => do
+      let cls ← parseCls? cls; let fam ← parseFam? fam; let levels ← parseFloat? levels
+      let init ← parseOptFloat? init
+      let evs ← parseScaleEvents? rest.length rest
+      some (joinWith " | " (runScaleEvents fam levels (GamScale.new cls fam init) evs))
   | ["sampler", fam, scale, levels, mu] => do
       let fam ← parseFam? fam; let scale ← parseOptFloat? scale
       let levels ← parseFloat? levels; let mu ← parseFloat? mu
